@@ -16,9 +16,7 @@ ulimit -s unlimited 2>/dev/null || true
 timeout 3000 make -k -j16 2>&1 | tail -n 30
 if [ ${PIPESTATUS[0]} -ne 0 ]; then echo "WARNING: some Coq files failed to build (the checks of the properties that need them will report it)"; fi
 cd ..
-# hygiene gate: no axioms of our own, no admitted proofs, no switched-off checks
-if grep -rnE 'Admitted|admit\.|\badmit\b|^\s*Axiom|^\s*Parameter|^\s*Conjecture|Unset Guard|bypass_check|type-in-type|impredicative-set|Admit Obligations' coq --include='*.v' ; then
-  echo "HYGIENE GATE FAILED"; exit 2
-fi
+# hygiene gate: no axioms of our own, no admitted proofs, no switched-off checks, no Variable outside a Section
+/venv/bin/python tools/hygiene.py || exit 2
 /venv/bin/python -m compileall -q harness check >/dev/null
 echo "setup ok"
